@@ -48,7 +48,7 @@ MANIFEST = {
 EXPLANATION = MANIFEST["level_text"]
 TRUSTED = ["pyvc VC generator; z3 5.1.0 / cvc5 1.0.3", "idealised AEAD (see C12): a sealed token opens iff presented under the same key and AAD", "str.encode() (UTF-8) is injective and preserves the presence of NUL"]
 ASSUMPTIONS = [
-    "stream method names are Python identifiers ([A-Za-z_][A-Za-z0-9_]*), in particular NUL-free",
+    "stream method names are Python identifiers; the proof only uses: non-empty and NUL-free",
     "domains are NUL-free (as in C12)",
     "only the cursor token needs the binding for the property: a call token is used only when its call id equals the one inside the already-accepted cursor token (C12.O6)",
     "tokens re-minted by later turns: proved for the mint functions and, syntactically, for their call sites (O2); the turn shells themselves are not executed symbolically",
@@ -152,7 +152,7 @@ def mint_site_dependencies(S):
     S.assume(K.nul_free(ident[1]))
     key = S.bytes("key")
     m1, m2 = S.str("method1"), S.str("method2")
-    S.assume(And(K.is_identifier(m1), K.is_identifier(m2)))
+    S.assume(And(K.is_method_name(m1), K.is_method_name(m2)))
     for which, fn, args in (
         ("cursor", st._mint_cursor_token, lambda: (SObj(None, kind="State"), SObj(None, kind="Info"), S.bytes("call_id"), key, auth)),
         ("call", st._mint_call_token, lambda: (None, SObj(None, kind="Schema"), SObj(None, kind="Schema"), key, auth, S.str("stream_id"))),
